@@ -92,8 +92,11 @@ JudgeBudget == PrintT(ToJson([id |-> Case.id, c07 |-> C07OK, na07 |-> SkipMismat
 Labels == { cid[i] : i \in V }
 DeliveredSet == ToSet(Obs.delivered)
 C01OK == /\ ~Obs.badHash
-         /\ ToSet(Obs.writes) \subseteq { cid[i] : i \in DeliveredSet }       \* only blocks of visits the traversal loaded, never foreign ones
-         /\ ToSet(Obs.store) \subseteq Sl0 \cup { cid[i] : i \in DeliveredSet }
+         \* only genuine blocks of visits the traversal can have reached (the root, or a child of a block the requestor holds),
+         \* never foreign ones.  (A block can be stored an instant before the request ends with an error, so that its nodes
+         \* are no longer delivered: stored is not required to imply delivered, delivered is required to imply stored.)
+         /\ ToSet(Obs.writes) \subseteq { cid[i] : i \in { j \in V : j = 1 \/ cid[par[j]] \in ToSet(Obs.store) } }
+         /\ ToSet(Obs.store) \subseteq Sl0 \cup { cid[i] : i \in { j \in V : j = 1 \/ cid[par[j]] \in ToSet(Obs.store) } }
          /\ \A k \in 1..Len(Obs.delivered) : LET i == Obs.delivered[k] IN i \in V /\ (i = 1 \/ par[i] \in DeliveredSet)
          /\ \A k \in 1..(Len(Obs.delivered) - 1) : Obs.delivered[k] < Obs.delivered[k+1]
          /\ Obs.nodesPrefixOK
